@@ -189,6 +189,16 @@ def check_one(ctx, rtext, names, docs, exps, tag):
                     rel = rel_from_struct(d[0] if isinstance(d, list) else d)
                 else:
                     rel, nf, root = rel_from_junit(r["out"])
+                    # counters: every <testsuite failures=/errors=> and the <testsuites> totals count exactly the <failure>/<error> elements below them
+                    bad_attr = None
+                    for el in [root] + list(root.iter("testsuite")):
+                        for attr, tag in (("failures", "failure"), ("errors", "error")):
+                            if el.get(attr) is not None and int(el.get(attr)) != len(list(el.iter(tag))):
+                                bad_attr = "<%s name=%r> says %s=%s but contains %d <%s> elements" % (el.tag, el.get("name"), attr, el.get(attr), len(list(el.iter(tag))), tag)
+                    if bad_attr:
+                        ctx.violation("junit:counter-attribute", bad_attr, c2)
+                        continue
+                    ctx.res.counts["junit_counter_attributes_checked"] += 1
                     if nf != sum(1 for v in expected_rel.values() if v == "unmet"):
                         ctx.violation("junit:failure-count", "junit has %d <failure> elements, %d expectations are unmet" % (nf, sum(1 for v in expected_rel.values() if v == "unmet")), c2)
                         continue
